@@ -32,7 +32,7 @@ def run(tier):
              'monitors': mon},
             {'label': 'no-timing-metadata', 'harness': HStory(pool=4, cap=3, max_list=2, layouts=('before',), timing='nometa'),
              'monitors': mon},
-            {'label': 'exotic-ids', 'harness': HStory(pool=gen.EXOTIC_IDS[:4], cap=3, max_list=2, layouts=('before',)), 'monitors': mon},
+            {'label': 'exotic-ids', 'harness': HStory(pool=gen.EXOTIC_QUICK, cap=3, max_list=2, layouts=('before',)), 'monitors': mon},
             {'label': 'pool4-cap3-L3', 'harness': HStory(pool=4, cap=3, max_list=3, layouts=('before',), packings=('one',)), 'monitors': mon},
         ]
     else:
